@@ -234,13 +234,13 @@ func c11Run(c *mon.Ctx, csAny any) {
 			c.Fail("SSWU modified its input field element", "sswu-mutates-input", nil)
 		}
 
-		fx, fy, _ := secp256k1.VFE(e)
-		if !mon.FECanonical(fx) || !mon.FECanonical(fy) {
+		xl, yl, _ := secp256k1.VRaw(e)
+		if oracle.FromLimbs(xl).Cmp(oracle.P) >= 0 || oracle.FromLimbs(yl).Cmp(oracle.P) >= 0 {
 			c.Fail("SSWU left a non-canonical coordinate", "sswu-noncanonical", nil)
 			return
 		}
 
-		x, y := mon.FEVal(fx), mon.FEVal(fy)
+		x, y := oracle.FromMont(xl, oracle.P), oracle.FromMont(yl, oracle.P)
 
 		if oracle.FSqr(y).Cmp(gIsoRef(x)) != 0 {
 			c.Fail(fmt.Sprintf("SSWU(u=%s) is not on the isogenous curve: x=%x y=%x", cs.U, x, y), "sswu-off-curve", nil)
